@@ -82,7 +82,7 @@ P = {
     "classify_vec": _cls,
     "corrupt": _corrupt,
     "signature": _sig,
-    "required_classes": ["graph/ok/h0", "graph/ok/h0/diamond", "graph/ok/h0/unreachable", "graph/ok/h1", "graph/ok/h2", "graph/ok/h3", "graph/ok/h1/diamond", "graph/ok/h1/unreachable", "graph/ok/h2/refused",
+    "required_classes": ["graph/ok/h0", "graph/ok/h0/diamond", "graph/ok/h0/unreachable", "graph/ok/h1", "graph/ok/h2", "graph/ok/h3", "graph/ok/h4", "graph/ok/h1/diamond", "graph/ok/h1/unreachable", "graph/ok/h2/refused",
                          "graph/ok/h2/diamond+refused", "graph/refuse/no-root", "graph/refuse/two-roots", "graph/refuse/loop", "graph/refuse/bad-diff-name", "graph/collision",
                          "walk/cM/None/few", "walk/cM/Both/many", "walk/cM/Up/few", "walk/cM/Down/few", "walk/fM/Both/few", "walk/cJ/None/few", "walk/fJ/Both/few",
                          "edge/cM/edited", "edge/cM/same", "edge/cM/err", "edge/fJ/edited", "edge/fJ/err", "root/cM/edited", "root/cM/err", "root/fJ/same", "ids"],
